@@ -226,6 +226,8 @@ enum Use {
     RepeatLet,
     /// a repeat literal whose element can fail and has a side effect (also for size 0)
     RepeatFailing,
+    /// the constant is read by a callee of a function whose parameter has the constant's name
+    ValueThroughCalls,
 }
 
 /// (source using const R, source with the value substituted, number of input parties description)
@@ -251,6 +253,10 @@ fn use_sources(u: Use, t: CTy, rname: &str, rval: i128) -> Option<(String, Strin
             let op = if t == CTy::Bool { "^" } else { "+" };
             (format!("pub fn main(x: {tn}) -> {tn} {{\n  x {op} {rname}\n}}\n"), format!("pub fn main(x: {tn}) -> {tn} {{\n  x {op} {rl}\n}}\n"))
         }
+        Use::ValueThroughCalls => (
+            format!("fn inner(x: {tn}) -> {tn} {{\n  x ^ {rname}\n}}\nfn outer({rname}: {tn}, x: {tn}) -> {tn} {{\n  inner(x) & {rname}\n}}\npub fn main(x: {tn}, y: {tn}) -> ({tn}, {tn}) {{\n  (outer(y, x), inner(y))\n}}\n"),
+            format!("fn inner(x: {tn}) -> {tn} {{\n  x ^ {rl}\n}}\nfn outer({rname}: {tn}, x: {tn}) -> {tn} {{\n  inner(x) & {rname}\n}}\npub fn main(x: {tn}, y: {tn}) -> ({tn}, {tn}) {{\n  (outer(y, x), inner(y))\n}}\n"),
+        ),
         Use::Index => (format!("pub fn main(arr: [u8; 3], y: u8) -> u8 {{\n  arr[{rname}]\n}}\n"), format!("pub fn main(arr: [u8; 3], y: u8) -> u8 {{\n  arr[{rl}]\n}}\n")),
         Use::RepeatFailing => (
             format!("pub fn main(x: u8, y: u8) -> ([u8; {rname}], u8) {{\n  let mut c = x;\n  let a = [{{ c = c ^ 1u8; c / y }}; {rname}];\n  (a, c)\n}}\n"),
@@ -317,6 +323,25 @@ fn input_sets(u: Use, t: CTy, size: usize) -> Vec<Vec<Vec<bool>>> {
                 vals.iter().map(|v| vec![crate::gast::Val::Int(*v, it).bits(&crate::gast::Defs::default())]).collect()
             }
         },
+        Use::ValueThroughCalls => {
+            let one: Vec<Vec<bool>> = match t {
+                CTy::Bool => vec![vec![false], vec![true]],
+                CTy::Int(it) => {
+                    let mut vals = vec![0, 1, it.max(), it.min(), -1, it.max() / 3];
+                    vals.retain(|v| it.fits(*v));
+                    vals.sort();
+                    vals.dedup();
+                    vals.iter().map(|v| crate::gast::Val::Int(*v, it).bits(&crate::gast::Defs::default())).collect()
+                }
+            };
+            let mut out = vec![];
+            for a in &one {
+                for b in &one {
+                    out.push(vec![a.clone(), b.clone()]);
+                }
+            }
+            out
+        }
         Use::Index => {
             let mut a = vec![];
             for k in [10u8, 20, 30] {
@@ -674,7 +699,7 @@ fn error_cases(cnt: &Cnt, coll: &Collector) {
 /// range must be accepted; a literal whose number is not a value of the constant's type must be refused;
 /// whenever a literal is accepted the program must behave like the program with that number written as a
 /// literal of the constant's type (the constant's bits and a constant expression built on it).
-fn supplied_value_menu(cnt: &Cnt, coll: &Collector) {
+pub fn supplied_value_menu(n_cases: &AtomicU64, n_evals: &AtomicU64, coll: &Collector) {
     use crate::gast::ALL_INT_TYS;
     let u_tag = |t: IntTy| match t {
         IntTy::U8 => UnsignedNumType::U8,
@@ -720,7 +745,7 @@ fn supplied_value_menu(cnt: &Cnt, coll: &Collector) {
         // the constant itself and a constant expression that exposes a value that is out of range
         let src = format!("const A: {n} = P::A;\nconst B: {n} = max(A, 0{n});\npub fn main(x: {n}) -> ({n}, {n}) {{\n  (A ^ x, B)\n}}\n", n = t.name());
         for (desc, l, num, tag) in &menu {
-            cnt.error_cases.fetch_add(1, Ordering::Relaxed);
+            n_cases.fetch_add(1, Ordering::Relaxed);
             let site = format!("K/supplied/{}/{}", t.name(), desc);
             let case = json!({"kind": "consts-supplied-value", "source": src, "const": format!("P::A = {l:?}")});
             let mut m: HashMap<String, HashMap<String, Literal>> = HashMap::new();
@@ -742,11 +767,16 @@ fn supplied_value_menu(cnt: &Cnt, coll: &Collector) {
                     }
                     let v = num.unwrap();
                     for x in [0i128, t.max()] {
-                        cnt.evals.fetch_add(1, Ordering::Relaxed);
+                        n_evals.fetch_add(1, Ordering::Relaxed);
                         let real = subject::eval(&gp.circuit, &[bits_of(x, t)]);
                         let mut exp = bits_of(v ^ t.wrap(x), t);
                         exp.extend(bits_of(v.max(0), t));
                         if real != RealOutcome::Value(exp.clone()) {
+                            if let RealOutcome::Value(bits) = &real {
+                                if bits.len() != exp.len() {
+                                    coll.push(Violation::new("C05", site.clone(), "output-width-differs-from-return-type", format!("x={x}"), case.clone(), format!("{} output bits for a return type of {} bits", bits.len(), exp.len())));
+                                }
+                            }
                             coll.push(Violation::new("C12", site.clone(), "differs-from-literal-substitution", format!("x={x}"), case.clone(), format!("expected bits {exp:?}, got {real:?}")));
                             break;
                         }
@@ -758,7 +788,7 @@ fn supplied_value_menu(cnt: &Cnt, coll: &Collector) {
     // bool constant
     let src = "const A: bool = P::A;\npub fn main(x: bool) -> bool {\n  A ^ x\n}\n";
     for (desc, l, _, _) in &menu {
-        cnt.error_cases.fetch_add(1, Ordering::Relaxed);
+        n_cases.fetch_add(1, Ordering::Relaxed);
         let site = format!("K/supplied/bool/{desc}");
         let case = json!({"kind": "consts-supplied-value", "source": src, "const": format!("P::A = {l:?}")});
         let mut m: HashMap<String, HashMap<String, Literal>> = HashMap::new();
@@ -777,7 +807,7 @@ fn supplied_value_menu(cnt: &Cnt, coll: &Collector) {
                     continue;
                 }
                 for x in [false, true] {
-                    cnt.evals.fetch_add(1, Ordering::Relaxed);
+                    n_evals.fetch_add(1, Ordering::Relaxed);
                     let real = subject::eval(&gp.circuit, &[vec![x]]);
                     let exp = vec![(*l == Literal::True) ^ x];
                     if real != RealOutcome::Value(exp.clone()) {
@@ -811,11 +841,11 @@ pub fn run(tier: Tier) -> i32 {
             }
             let exts: Vec<_> = exts.into_iter().collect();
             let uses: Vec<Use> = match t {
-                CTy::Int(IntTy::Usize) => vec![Use::ArrayTypeSize, Use::Repeat, Use::SingleArrayParties, Use::LoopCount, Use::Value, Use::Index, Use::ConstExprSize, Use::RepeatLet, Use::RepeatFailing],
-                _ => vec![Use::Value],
+                CTy::Int(IntTy::Usize) => vec![Use::ArrayTypeSize, Use::Repeat, Use::SingleArrayParties, Use::LoopCount, Use::Value, Use::Index, Use::ConstExprSize, Use::RepeatLet, Use::RepeatFailing, Use::ValueThroughCalls],
+                _ => vec![Use::Value, Use::ValueThroughCalls],
             };
             for u in uses {
-                let size_use = !matches!(u, Use::Value | Use::Index);
+                let size_use = !matches!(u, Use::Value | Use::Index | Use::ValueThroughCalls);
                 let alphabet: Vec<i128> = match t {
                     CTy::Bool => vec![0, 1],
                     CTy::Int(it) if size_use => vec![0, 1, 2, 3, 5, it.max()],
@@ -852,7 +882,7 @@ pub fn run(tier: Tier) -> i32 {
         check_pair(j.t, &j.name, &j.sec, j.u, &j.ext, &cnt, &coll);
     });
     error_cases(&cnt, &coll);
-    supplied_value_menu(&cnt, &coll);
+    supplied_value_menu(&cnt.error_cases, &cnt.evals, &coll);
     literal_api_cases(&cnt, &coll);
     let sample = |i: usize| {
         let j = &jobs[i];
@@ -865,7 +895,7 @@ pub fn run(tier: Tier) -> i32 {
         coverage: json!({
             "evaluations": cnt.evals.load(Ordering::Relaxed) + cnt.error_cases.load(Ordering::Relaxed),
             "distinct_nontrivial": cnt.nontrivial.load(Ordering::Relaxed),
-            "rule": "const sections (external, literal, reference to an earlier const, min/max/+/- incl. nested, 1-3 declarations, two parties) for usize/u8/i8/u16/i64/bool x use templates (array type size, repeat size, single-array-parameter parties, loop count, value use, index, const-expression size) x ALL assignments of the externals over {0,1,2,3,MAX-1,MAX,MIN,-1} (sizes {0,1,2,3,5,MAX}); thorough additionally enumerates EVERY constant expression with <= 2 operators (min/max/+/-, nested either side, parenthesised) over the atoms {A = P::A, Q::B, 1, 2, MAX} as `const B = <expr>` for each type; differential oracle: the same program with the harness-evaluated values (wrapping arithmetic of the constant's type) substituted as literals must have the same party sizes, output width and outputs on every input; literal entry points (literal_arg, parse_arg, Evaluator::set_literal / run / into_literal) of identity programs whose parameter and return types nest const-sized arrays ([[u8;C];R], [(u8,[bool;C]);R], [S;R] with a const-sized field) for all R, C in 0..=3; failure space: every combination of {fine, missing, 6 wrongly typed literals} for 3 declared constants, with and without extra unknown constants; supplied-value menu: every constant type (9 integer types, bool) x every literal {MIN-1, MIN, MIN+1, -1, 0, 1, MAX-1, MAX, MAX+1} of every number type, unspecified numbers, true/false/()/[true]: a literal of the constant's own type that is in range must be accepted, a literal that is not a value of the type must be refused, an accepted literal must behave as the written literal (constant bits and max(A, 0)); non-trivial = pair whose outputs take >= 2 distinct values",
+            "rule": "const sections (external, literal, reference to an earlier const, min/max/+/- incl. nested, 1-3 declarations, two parties) for usize/u8/i8/u16/i64/bool x use templates (array type size, repeat size, single-array-parameter parties, loop count, value use, value read by the callee of a function whose parameter has the constant's name, index, const-expression size) x ALL assignments of the externals over {0,1,2,3,MAX-1,MAX,MIN,-1} (sizes {0,1,2,3,5,MAX}); thorough additionally enumerates EVERY constant expression with <= 2 operators (min/max/+/-, nested either side, parenthesised) over the atoms {A = P::A, Q::B, 1, 2, MAX} as `const B = <expr>` for each type; differential oracle: the same program with the harness-evaluated values (wrapping arithmetic of the constant's type) substituted as literals must have the same party sizes, output width and outputs on every input; literal entry points (literal_arg, parse_arg, Evaluator::set_literal / run / into_literal) of identity programs whose parameter and return types nest const-sized arrays ([[u8;C];R], [(u8,[bool;C]);R], [S;R] with a const-sized field) for all R, C in 0..=3; failure space: every combination of {fine, missing, 6 wrongly typed literals} for 3 declared constants, with and without extra unknown constants; supplied-value menu: every constant type (9 integer types, bool) x every literal {MIN-1, MIN, MIN+1, -1, 0, 1, MAX-1, MAX, MAX+1} of every number type, unspecified numbers, true/false/()/[true]: a literal of the constant's own type that is in range must be accepted, a literal that is not a value of the type must be refused, an accepted literal must behave as the written literal (constant bits and max(A, 0)); non-trivial = pair whose outputs take >= 2 distinct values",
             "samples": [sample(0), sample(jobs.len() / 2), sample(jobs.len() - 1)],
             "program_assignment_pairs": cnt.pairs.load(Ordering::Relaxed),
             "pairs_skipped_size_over_48": cnt.skipped_big.load(Ordering::Relaxed),
